@@ -18,6 +18,7 @@ type recEv struct {
 	Op    string `json:"op"`
 	Row   []int  `json:"row"`
 	Len   int    `json:"len"`
+	Mk    int    `json:"mk"`
 	Start int    `json:"start"`
 	N     int    `json:"n"`
 	X     int    `json:"x"`
@@ -99,10 +100,32 @@ func main() {
 		if err := json.Unmarshal(raw, &e); err != nil {
 			return nil, err
 		}
-		row := gozxing.NewBitArray(e.Len)
-		for i, b := range hlib.Unchunk(e.Row, e.Len) {
-			if b {
-				row.Set(i)
+		bits := hlib.Unchunk(e.Row, e.Len)
+		var row *gozxing.BitArray
+		switch e.Mk {
+		case 1:
+			row = gozxing.NewEmptyBitArray()
+			for _, b := range bits {
+				row.AppendBit(b)
+			}
+		case 2:
+			row = gozxing.NewEmptyBitArray()
+			for i := 0; i < len(bits); i += 5 {
+				n, v := 0, 0
+				for ; n < 5 && i+n < len(bits); n++ {
+					v <<= 1
+					if bits[i+n] {
+						v |= 1
+					}
+				}
+				row.AppendBits(v, n)
+			}
+		default:
+			row = gozxing.NewBitArray(e.Len)
+			for i, b := range bits {
+				if b {
+					row.Set(i)
+				}
 			}
 		}
 		counters := make([]int, e.N)
